@@ -88,6 +88,11 @@ f_abs = sympy.Function("absf")
 f_sqrt = sympy.Function("sqrtf")
 
 
+class Wrong(Exception):
+    """a fully understood construct that is definitely not what the rule requires"""
+    pass
+
+
 class KCtx:
     def __init__(self, fn):
         self.fn = fn
@@ -107,6 +112,19 @@ class KCtx:
             return "0"
         if n.get("k") == "Ref" and n.get("d") in self.tags:
             return self.tags[n["d"]]
+        # a subscript built only from the loop variable, the extent parameter and integers is understood: it addresses
+        # another element than the one every other operand of the update addresses
+        def affine(x):
+            x = strip(x)
+            if x.get("k") == "Int":
+                return True
+            if x.get("k") == "Ref":
+                return (x.get("d") == self.i and self.i is not None) or (x.get("dk") == "param" and x.get("n") == "size")
+            if x.get("k") == "Bin" and x.get("op") in ("+", "-", "*"):
+                return affine(x["lhs"]) and affine(x["rhs"])
+            return False
+        if affine(n):
+            raise Wrong("subscript `%s` (line %s) addresses another element than the loop index: for size > 1 the update combines different positions of its operands" % (render(n), n.get("l")))
         raise Unknown("subscript `%s` is neither the loop variable nor a modelled index (line %s)" % (render(n), n.get("l")))
 
     def cell(self, name, tag):
@@ -318,6 +336,8 @@ def analyse_mapfold(ck, fn, struct, blocked):
                   "; ".join(problems) if problems else "[%s] loop over [0,size)%s, every operand subscripted by the loop variable(s), target %s fully covered" % (inst, " x [0,n)" if blocked else "", tgt),
                   file, s.get("l"), sample={"instantiation": inst, "update": "%s <- %s" % (tgt, new)})
             results.append((cond, label, tgt, new, s.get("l"), final))
+        except Wrong as e:
+            ck.ob("E2.kernel-loop", key, False, "[%s] %s" % (inst, e), file, blk.get("l"))
         except Unknown as e:
             ck.incomplete("E2.kernel-loop", "%s [%s]: %s" % (key, inst, e))
     # reductions: neutral start, result returned
@@ -535,6 +555,8 @@ def analyse_index_kernel(ck, fn, struct, blocked):
         ck.ob("E2.index-kernel", key, not problems,
               "[%s] " % inst + ("; ".join(problems) if problems else "loop over [0,size)%s; candidate %s %s incumbent; stored value = compared value; seeds consistent" % (" x [0,n)" if blocked else "", cand_want, cmp_want)),
               file, ifn.get("l"))
+    except Wrong as e:
+        ck.ob("E2.index-kernel", key, False, "[%s] %s" % (inst, e), file, fn.line)
     except Unknown as e:
         ck.incomplete("E2.index-kernel", "%s [%s]: %s" % (key, inst, e))
 
